@@ -369,6 +369,112 @@ func runC17(c *Ctx) {
 			}
 		}
 	}
+	// ---- part 1b: a refused re-creation on a handle with pending asynchronous writes --------------
+	// the refusal must come before anything is touched: the pending objects stay pending (no
+	// file appears), and nothing is lost at Close.
+	if c.Shard == 0 {
+		stored := shapeVariants[0]
+		for _, cur := range shapeVariants {
+			for _, ext := range []string{sod.DefaultExtension, ".other"} {
+				for _, cacheOn := range []bool{false, true} {
+					structSame := sameMap(stored.Fields, cur.Fields)
+					consSame := sameMap(stored.Cons, cur.Cons)
+					if structSame && consSame && ext == sod.DefaultExtension {
+						continue // compatible: covered by part 2
+					}
+					if !structSame {
+						// a struct cannot change shape inside one process: a handle that already
+						// loaded the collection never meets another shape of the same type
+						continue
+					}
+					cur, ext, cacheOn := cur, ext, cacheOn
+					var viol []Violation
+					fail := func(sig, what string) {
+						viol = append(viol, Violation{Sig: "C17|" + sig, What: what + fmt.Sprintf("\n  asynchronous collection of shape base with one flushed and two pending writes; Create with shape %s, extension %q, cache %v", cur.Name, ext, cacheOn)})
+					}
+					x := vrt.Run(vrt.Config{Sequential: true, MaxTicks: 10}, func() {
+						setGlobals(Cfg{})
+						fsys := vfs.New()
+						vfs.Cur = fsys
+						db := sod.Open(dbRoot)
+						as := sod.DefaultSchema
+						as.Asynchrone(100, time.Hour)
+						if err := db.Create(stored.Zero(), as); err != nil {
+							panic("C17 setup: " + err.Error())
+						}
+						o1, o2 := stored.New(1), stored.New(2)
+						db.InsertOrUpdate(o1)
+						if err := db.FlushAllAndCommit(stored.Zero()); err != nil {
+							panic("C17 setup: " + err.Error())
+						}
+						o1b := stored.New(3)
+						o1b.Initialize(o1.UUID())
+						if err := db.InsertOrUpdate(o1b); err != nil { // pending update
+							panic("C17 setup: " + err.Error())
+						}
+						if err := db.InsertOrUpdate(o2); err != nil { // pending insert
+							panic("C17 setup: " + err.Error())
+						}
+						before := treeDigest(fsys)
+						ns := sod.DefaultSchema
+						ns.Extension = ext
+						ns.Cache = cacheOn
+						err := db.Create(cur.Zero(), ns)
+						switch {
+						case !structSame:
+							if !errors.Is(err, sod.ErrStructureChanged) {
+								fail("structure-change-not-refused|Create-pending", fmt.Sprintf("Create returned %v instead of ErrStructureChanged", err))
+							}
+						case ext != sod.DefaultExtension && consSame:
+							if !errors.Is(err, sod.ErrExtensionMismatch) {
+								fail("extension-change-not-refused|pending", fmt.Sprintf("Create returned %v instead of ErrExtensionMismatch", err))
+							}
+						case !consSame && ext == sod.DefaultExtension:
+							if !errors.Is(err, sod.ErrFieldDescModif) {
+								fail("constraint-change-not-refused|pending", fmt.Sprintf("Create returned %v instead of ErrFieldDescModif", err))
+							}
+						default:
+							if err == nil {
+								fail("incompatible-create-accepted|pending", "Create with other constraints and another extension succeeded")
+							}
+						}
+						if treeDigest(fsys) != before {
+							fail("refused-but-modified|Create-pending", "the re-creation was refused ("+fmt.Sprint(err)+") but files were modified: pending writes were flushed or files rewritten by a call that changed nothing")
+						}
+						// nothing is lost: the handle still serves both objects, Close writes them
+						if n, cerr := db.Count(stored.Zero()); cerr != nil || n != 2 {
+							fail("refused-create-lost-data", fmt.Sprintf("after the refused Create Count = (%d, %v), expected 2", n, cerr))
+						}
+						if cerr := db.Close(); cerr != nil {
+							fail("refused-create-lost-data", "Close after the refused Create fails: "+cerr.Error())
+						}
+						db2 := sod.Open(dbRoot)
+						got, gerr := db2.GetByUUID(stored.Zero(), o1.UUID())
+						if gerr != nil || jsonOf(got) != jsonOf(o1b) {
+							fail("refused-create-lost-data", fmt.Sprintf("after the refused Create and Close the pending update reads back as %s (%v)", jsonOf(got), gerr))
+						}
+						if n, cerr := db2.Count(stored.Zero()); cerr != nil || n != 2 {
+							fail("refused-create-lost-data", fmt.Sprintf("after the refused Create and Close a new handle counts (%d, %v), expected 2", n, cerr))
+						}
+					})
+					for _, p := range x.Panics {
+						fail("panic|"+normPanic(p.Value+" @ "+sodFrame(p.Stack)), "panic: "+p.Value+"\n"+trimStack(p.Stack))
+					}
+					if x.Deadlock || x.Horizon {
+						fail("stuck|Create-pending", "the refused re-creation blocked")
+					}
+					c.Count("evaluations", 1)
+					c.Count("transitions", 1)
+					key := fmt.Sprintf("pending>%s|%s|%v", cur.Name, ext, cacheOn)
+					c.Distinct("states", key)
+					c.Distinct("distinct_nontrivial", key)
+					for _, v := range viol {
+						c.Violation(v)
+					}
+				}
+			}
+		}
+	}
 	// ---- part 2: live settings changes -----------------------------------------------------------
 	depth := 4
 	if c.Tier == "thorough" {
@@ -509,7 +615,7 @@ func runC17(c *Ctx) {
 		}
 	}
 	c.Meta(map[string]interface{}{
-		"rule":   "(1) all ordered pairs (stored shape, current shape) over 16 struct variants that share package and type name (field added / removed / retyped / renamed / reordered, pointer vs value nesting, nested field retyped, a second and third field of an already used struct type, tag added / removed / changed, lower / upper added) x {0, 2} stored objects x 21 operations naming the collection, as first and as later operation on the handle; pair class computed by an independent reflection walk: structure different => ErrStructureChanged and byte-identical files (also after Control and Close); same structure but different constraints => Create refused with ErrFieldDescModif; other extension => ErrExtensionMismatch; compatible => operations succeed, data preserved, Control quiet. (2) Create with each of {cache on/off} x {async off, (2, 2 steps), (100, 2 steps)} as alphabet letters in BFS histories with pending writes (refinement continues, deleted objects never on disk, nothing lost at Close, second handle agrees) and as calls of a client against the running background writer over all schedules within 2 deviations (no panic, no blocking, nothing lost). Non-trivial = pairs of different shapes; histories with a settings change on non-empty collections.",
+		"rule":   "(1) all ordered pairs (stored shape, current shape) over 16 struct variants that share package and type name (field added / removed / retyped / renamed / reordered, pointer vs value nesting, nested field retyped, a second and third field of an already used struct type, tag added / removed / changed, lower / upper added) x {0, 2} stored objects x 21 operations naming the collection, as first and as later operation on the handle; pair class computed by an independent reflection walk: structure different => ErrStructureChanged and byte-identical files (also after Control and Close); same structure but different constraints => Create refused with ErrFieldDescModif; other extension => ErrExtensionMismatch; compatible => operations succeed, data preserved, Control quiet. (1b) every incompatible (shape, extension, cache) re-creation on an asynchronous handle holding one flushed object, a pending update and a pending insert: refused with the right error, no file touched (pending writes stay pending), both objects served, written by Close and read back by a new handle. (2) Create with each of {cache on/off} x {async off, (2, 2 steps), (100, 2 steps)} as alphabet letters in BFS histories with pending writes (refinement continues, deleted objects never on disk, nothing lost at Close, second handle agrees) and as calls of a client against the running background writer over all schedules within 2 deviations (no panic, no blocking, nothing lost). Non-trivial = pairs of different shapes; histories with a settings change on non-empty collections.",
 		"shapes": len(shapeVariants), "operations": len(ops), "settings_depth": depth,
 	})
 }
